@@ -1,0 +1,62 @@
+//! Random numbers for the three places the library draws them (frame nonce bit, client and server
+//! handshake nonces), replayable when a harness seeds the current thread.
+
+use std::cell::RefCell;
+use std::collections::VecDeque;
+
+struct State {
+    seed: Option<u64>,
+    forced_u32: VecDeque<u32>,
+}
+
+thread_local! {
+    static STATE: RefCell<State> = RefCell::new(State { seed: None, forced_u32: VecDeque::new() });
+}
+
+/// Seeds (or, with `None`, un-seeds) the generator of the current thread.
+pub fn set_seed(seed: Option<u64>) {
+    STATE.with(|s| s.borrow_mut().seed = seed);
+}
+
+/// Queues values that the next calls to `random_u32()` on this thread return, in order.
+pub fn force_u32(value: u32) {
+    STATE.with(|s| s.borrow_mut().forced_u32.push_back(value));
+}
+
+/// Clears the queue of forced values.
+pub fn clear_forced() {
+    STATE.with(|s| s.borrow_mut().forced_u32.clear());
+}
+
+fn next_u64() -> Option<u64> {
+    STATE.with(|s| {
+        let mut s = s.borrow_mut();
+        if let Some(ref mut x) = s.seed {
+            // splitmix64
+            *x = x.wrapping_add(0x9E3779B97F4A7C15);
+            let mut z = *x;
+            z = (z ^ (z >> 30)).wrapping_mul(0xBF58476D1CE4E5B9);
+            z = (z ^ (z >> 27)).wrapping_mul(0x94D049BB133111EB);
+            Some(z ^ (z >> 31))
+        } else {
+            None
+        }
+    })
+}
+
+pub fn random_bool() -> bool {
+    match next_u64() {
+        Some(v) => v >> 63 != 0,
+        None => rand::random(),
+    }
+}
+
+pub fn random_u32() -> u32 {
+    if let Some(v) = STATE.with(|s| s.borrow_mut().forced_u32.pop_front()) {
+        return v;
+    }
+    match next_u64() {
+        Some(v) => (v >> 32) as u32,
+        None => rand::random(),
+    }
+}
